@@ -10,7 +10,7 @@ pub mod gen;
 
 #[cfg(any(feature = "c01", feature = "c02", feature = "c03", feature = "c04", feature = "c07", feature = "c15", feature = "c20"))]
 pub mod verdict;
-#[cfg(feature = "c04")]
+#[cfg(any(feature = "c04", feature = "c07"))]
 pub mod c04;
 #[cfg(any(feature = "c04", feature = "c05"))]
 pub mod c05;
